@@ -298,6 +298,8 @@ func (r *bdRun) settle(rev bool) string {
 		}
 		useCount, cleaning, lockFree := r.inv.VerifState()
 		if !lockFree {
+			lockLeaked(r.out.script)
+			lockLeaked(r.out.script)
 			return "IdleInvoker lock is held at quiescence"
 		}
 		if int(useCount) != r.sp.users || cleaning != (act != nil) {
